@@ -24,7 +24,7 @@ use kanidmd_lib::idm::server::{IdmServer, IdmServerProxyWriteTransaction};
 use kanidmd_lib::prelude::*;
 use kanidmd_lib::schema::SchemaTransaction;
 use kanidmd_lib::verif_hooks::{set_point_handler, txn_cid};
-use kv_engine::forkdfs::fork_eval;
+use kv_engine::forkdfs::{fork_eval, fork_map};
 use kv_engine::{Ctx, Level};
 use serde_json::json;
 use std::path::{Path, PathBuf};
@@ -38,7 +38,7 @@ const GRP: u128 = 0xfa04_0000_0000_4000_8000_0000_0000_0001;
 const NEWATTR: &str = "verifnewattr";
 const CLIENT: &str = "verifclient";
 
-fn open(path: &Path) -> Result<Idm, String> {
+pub(crate) fn open(path: &Path) -> Result<Idm, String> {
     let rt = new_rt();
     let qs = new_qs(Some(path), 4, DOMAIN_TGT_LEVEL, srv::t(0), &rt).map_err(|e| format!("open qs: {e:?}"))?;
     let origin = Url::from_str("https://idm.example.com").map_err(|e| e.to_string())?;
@@ -46,7 +46,7 @@ fn open(path: &Path) -> Result<Idm, String> {
     Ok(Idm { rt, idms, delayed, audit })
 }
 
-fn copy_db(from: &Path, to: &Path) -> Result<(), String> {
+pub(crate) fn copy_db(from: &Path, to: &Path) -> Result<(), String> {
     for suffix in ["", "-wal", "-shm"] {
         let f = PathBuf::from(format!("{}{suffix}", from.display()));
         if f.exists() {
@@ -56,7 +56,7 @@ fn copy_db(from: &Path, to: &Path) -> Result<(), String> {
     Ok(())
 }
 
-fn make_template(path: &Path) -> Result<(), String> {
+pub(crate) fn make_template(path: &Path) -> Result<(), String> {
     let idm = open(path)?;
     idm.write(srv::t(10), |w| {
         w.qs_write.internal_create(vec![person_entry("reader", person_uuid(READER)), person_entry("target", person_uuid(TARGET)), group_entry("readers", Uuid::from_u128(GRP), &[person_uuid(READER)])])?;
@@ -67,7 +67,7 @@ fn make_template(path: &Path) -> Result<(), String> {
     Ok(())
 }
 
-const TXNS: [&str; 8] = ["create entry", "modify entry", "delete entry", "add schema attribute", "add access control profile", "create oauth2 client", "change domain display name", "all of them in one transaction"];
+pub(crate) const TXNS: [&str; 8] = ["create entry", "modify entry", "delete entry", "add schema attribute", "add access control profile", "create oauth2 client", "change domain display name", "all of them in one transaction"];
 
 fn oauth2_client() -> Entry<EntryInit, EntryNew> {
     let mut e: Entry<EntryInit, EntryNew> = Entry::new();
@@ -97,7 +97,7 @@ fn schema_attr() -> Entry<EntryInit, EntryNew> {
 }
 
 /// the operations of transaction kind `k`; `fail_mid` makes one of them an invalid request
-fn apply(w: &mut IdmServerProxyWriteTransaction<'_>, k: usize, fail_mid: bool, stop_after: Option<usize>, done: &mut usize) -> Result<(), OperationError> {
+pub(crate) fn apply(w: &mut IdmServerProxyWriteTransaction<'_>, k: usize, fail_mid: bool, stop_after: Option<usize>, done: &mut usize) -> Result<(), OperationError> {
     let q = &mut w.qs_write;
     let all = k == 7;
     // operation boundary: the caller may abandon the transaction after the n-th operation
@@ -150,7 +150,7 @@ fn apply(w: &mut IdmServerProxyWriteTransaction<'_>, k: usize, fail_mid: bool, s
 }
 
 /// everything a reader of the server could notice
-fn observe(idm: &Idm, with_next_cid: bool) -> String {
+pub(crate) fn observe(idm: &Idm, with_next_cid: bool) -> String {
     let mut out = Vec::new();
     idm.read(|r| {
         let mut es: Vec<String> = r.qs_read.internal_search(Filter::new_ignore_hidden(f_pres(Attribute::Class))).unwrap_or_default().iter().map(|e| format!("{}:{}", e.get_uuid(), srv::render_entry(e, &[]))).collect();
@@ -209,17 +209,17 @@ enum How {
     Commit,
 }
 
-fn strip_entries(s: &str) -> String {
+pub(crate) fn strip_entries(s: &str) -> String {
     s.lines().filter(|l| !l.starts_with("entries:") && !l.starts_with("E:")).collect::<Vec<_>>().join("\n")
 }
 
-fn changed_fields(a: &str, b: &str) -> String {
+pub(crate) fn changed_fields(a: &str, b: &str) -> String {
     let mut v: Vec<&str> = a.lines().zip(b.lines()).filter(|(x, y)| x != y && !x.starts_with("E:")).map(|(x, _)| x.split(':').next().unwrap_or("")).collect();
     v.dedup();
     v.join("+")
 }
 
-fn first_diff(a: &str, b: &str) -> String {
+pub(crate) fn first_diff(a: &str, b: &str) -> String {
     a.lines().zip(b.lines()).filter(|(x, y)| x != y).map(|(x, y)| format!("`{x}` became `{y}`")).collect::<Vec<_>>().join("; ")
 }
 
@@ -391,86 +391,115 @@ pub fn run(args: &[String]) -> ! {
         Ok(s) if !s.starts_with("ERR") => s,
         Ok(s) | Err(s) => kv_engine::ctx::machinery_exit(&format!("C04 baseline: {s}")),
     };
-    let points = ["sql.w.conn", "sql.w.begin", "sql.w.commit", "sql.r.conn", "sql.r.begin"];
-    let mut hows: Vec<How> = vec![How::Commit, How::Dropped, How::OperationFails];
-    for n in 1..=9usize {
-        hows.push(How::DroppedAfter(n));
+    let points = ["sql.w.conn", "sql.w.begin", "sql.w.stmt", "sql.w.commit", "sql.r.conn", "sql.r.begin"];
+    // families of cases; inside a family the hit number grows until the point is no longer reached
+    #[derive(Clone, Copy, Debug)]
+    enum Fam {
+        Dropped,
+        OperationFails,
+        DroppedAfter,
+        Fault(&'static str),
     }
-    for p in points {
-        for n in 1..=ctx.pick(3u64, 6u64) {
-            hows.push(How::Fault(p, n));
+    let mut fams = vec![Fam::Dropped, Fam::OperationFails, Fam::DroppedAfter];
+    fams.extend(points.iter().map(|p| Fam::Fault(p)));
+    let cap = ctx.opt_u64("cap").unwrap_or(ctx.pick(60, 400)) as usize;
+    let only: Option<(usize, String)> = ctx.replay.as_ref().map(|r| (r["case"]["txn"].as_u64().unwrap_or(0) as usize, r["case"]["how"].as_str().unwrap_or("").to_string()));
+    let workers = kv_engine::product::ncpu().min(16);
+    // phase 1: the successful control of every transaction kind
+    let controls = match fork_map(workers, TXNS.len(), |k| fork_eval(|| run_case(&tpl, &dir, k, How::Commit, &baseline_fresh, "")).unwrap_or_else(|e| format!("machinery|{e}"))) {
+        Ok(c) => c,
+        Err(e) => kv_engine::ctx::machinery_exit(&format!("C04 controls: {e}")),
+    };
+    let mut control: Vec<String> = Vec::new();
+    for (k, c) in controls.iter().enumerate() {
+        match c.split_once('\u{4}') {
+            Some((_, obs)) => control.push(obs.to_string()),
+            None => {
+                ctx.machinery_error(format!("{}: control: {c}", TXNS[k]));
+                control.push(String::new());
+            }
         }
     }
-    let only: Option<(usize, String)> = ctx.replay.as_ref().map(|r| (r["case"]["txn"].as_u64().unwrap_or(0) as usize, r["case"]["how"].as_str().unwrap_or("").to_string()));
-    let (mut evals, mut nontrivial, mut nbad, mut unreached) = (0u64, 0u64, 0u64, 0u64);
+    // phase 2: one item per (transaction kind, family)
+    let items: Vec<(usize, Fam)> = (0..TXNS.len()).flat_map(|k| fams.iter().map(move |f| (k, *f))).filter(|(k, _)| only.as_ref().map(|(ok, _)| ok == k).unwrap_or(true)).collect();
+    let results = match fork_map(workers, items.len(), |i| {
+        let (k, fam) = items[i];
+        let mut out = Vec::new();
+        let mut n = 1usize;
+        loop {
+            let how = match fam {
+                Fam::Dropped => How::Dropped,
+                Fam::OperationFails => How::OperationFails,
+                Fam::DroppedAfter => How::DroppedAfter(n),
+                Fam::Fault(p) => How::Fault(p, n as u64),
+            };
+            let wanted = only.as_ref().map(|(_, oh)| *oh == format!("{how:?}")).unwrap_or(true);
+            let r = if wanted { fork_eval(|| run_case(&tpl, &dir, k, how, &baseline_fresh, &control[k])).unwrap_or_else(|e| format!("machinery|{e}")) } else { "skipped|".to_string() };
+            let unreached = r.starts_with("unreached|");
+            out.push(format!("{how:?}\u{6}{r}"));
+            n += 1;
+            if unreached || matches!(fam, Fam::Dropped | Fam::OperationFails) || n > cap {
+                if n > cap && !unreached {
+                    out.push(format!("{how:?}\u{6}capped|"));
+                }
+                break;
+            }
+        }
+        out.join("\u{5}")
+    }) {
+        Ok(r) => r,
+        Err(e) => kv_engine::ctx::machinery_exit(&format!("C04 cases: {e}")),
+    };
+    let (mut evals, mut nontrivial, mut nbad, mut capped) = (TXNS.len() as u64, 0u64, 0u64, 0u64);
     let mut reached: std::collections::BTreeMap<String, u64> = Default::default();
-    for k in 0..TXNS.len() {
-        let mut control = String::new();
-        for how in &hows {
-            if let Some((ok, oh)) = &only {
-                // (the successful control of the same transaction kind is always run first: the
-                // retry oracle compares with it)
-                if *ok != k || (*oh != format!("{how:?}") && *how != How::Commit) {
-                    continue;
-                }
+    for ((k, fam), res) in items.iter().zip(results.iter()) {
+        let k = *k;
+        for case in res.split('\u{5}') {
+            let (how, out) = case.split_once('\u{6}').unwrap_or(("?", case));
+            if out.starts_with("skipped|") || out.starts_with("unreached|") {
+                continue;
             }
-            let out = match fork_eval(|| run_case(&tpl, &dir, k, *how, &baseline_fresh, &control)) {
-                Ok(o) => o,
-                Err(e) => {
-                    ctx.machinery_error(format!("{} / {how:?}: {e}", TXNS[k]));
-                    continue;
-                }
-            };
+            if out.starts_with("capped|") {
+                capped += 1;
+                continue;
+            }
             evals += 1;
-            let out = match out.split_once('\u{4}') {
-                Some((a, c)) => {
-                    control = c.to_string();
-                    a.to_string()
-                }
-                None => out,
-            };
-            if *how != How::Commit && control.is_empty() {
-                ctx.machinery_error(format!("{}: no control observation", TXNS[k]));
-            }
             for part in out.split('\u{3}') {
                 let (verdict, detail) = part.split_once('|').unwrap_or((part, ""));
+                let point = match fam {
+                    Fam::Fault(p) => p.to_string(),
+                    other => format!("{other:?}"),
+                };
                 match verdict {
                     "ok" => {
-                        if *how != How::Commit {
-                            nontrivial += 1;
-                        }
-                        if let How::Fault(p, _) = how {
-                            *reached.entry(p.to_string()).or_insert(0) += 1;
-                        }
+                        nontrivial += 1;
+                        *reached.entry(point).or_insert(0) += 1;
                     }
-                    "unreached" => unreached += 1,
-                    "machinery" => ctx.machinery_error(format!("{} / {how:?}: {detail}", TXNS[k])),
+                    "machinery" => ctx.machinery_error(format!("{} / {how}: {detail}", TXNS[k])),
                     v if v.starts_with("viol:") => {
                         nbad += 1;
                         nontrivial += 1;
-                        let point = match how {
-                            How::Fault(p, _) => p.to_string(),
-                            other => format!("{other:?}"),
-                        };
-                        ctx.violation(&format!("{point}:{}", &v[5..]), &format!("transaction [{}] with {how:?}: {detail}", TXNS[k]), json!({"txn": k, "how": format!("{how:?}")}));
+                        *reached.entry(point.clone()).or_insert(0) += 1;
+                        ctx.violation(&format!("{point}:{}", &v[5..]), &format!("transaction [{}] with {how}: {detail}", TXNS[k]), json!({"txn": k, "how": how}));
                     }
                     other => ctx.machinery_error(format!("unparsable case result {other}")),
                 }
             }
-            if evals % 13 == 2 {
-                ctx.sample(json!({"transaction": TXNS[k], "how": format!("{how:?}"), "result": out.chars().take(160).collect::<String>()}));
+            if evals % 29 == 2 {
+                ctx.sample(json!({"transaction": TXNS[k], "how": how, "result": out.chars().take(160).collect::<String>()}));
             }
         }
     }
     let _ = std::fs::remove_dir_all(&dir);
     ctx.set("evaluations", evals);
     ctx.set("distinct_nontrivial", nontrivial);
-    ctx.set("fault_cases_whose_point_was_not_reached", unreached);
-    ctx.set("fault_cases_fired_per_point", json!(reached));
-    ctx.set("rule", "8 transaction kinds x {successful commit (control), dropped without commit, an operation failing mid-transaction, an injected storage error at the 1st / 2nd / 3rd hit of each storage point: write connection, write BEGIN, write COMMIT, read connection, read BEGIN}; each in a forked child on its own copy of a file-backed template database. Non-trivial = the transaction really failed at the requested place (cases whose point was never reached are counted separately)");
+    ctx.set("families_cut_off_by_the_hit_cap", capped);
+    ctx.set("hit_cap", cap as u64);
+    ctx.set("cases_per_family", json!(reached));
+    ctx.set("rule", "8 transaction kinds x {successful commit (control), dropped without commit, an operation failing mid-transaction, abandoned after its n-th operation for every n, an injected storage error at the n-th hit of each storage point (write connection, write BEGIN, every write statement, write COMMIT, read connection, read BEGIN) for every n the transaction reaches (up to the stated cap)}; each in a forked child on its own copy of a file-backed template database. Non-trivial = the transaction really failed at the requested place");
     ctx.set("mismatches", nbad);
     ctx.set("exhaustive", true);
-    ctx.assume("storage errors are injected at the points the hooks expose (connection acquisition, BEGIN, COMMIT); individual SQL statements inside a transaction are not separate fault points");
+    ctx.assume("storage errors are injected at the points the hooks expose: connection acquisition, BEGIN, COMMIT and the entry of every function that writes to the database (one point per write function call, not per row)");
     ctx.assume("at the current domain level the live schema is built from shipped migration data and not from stored schema entries, so the 'schema attribute' transaction is observable only as an entry; the schema cell is still observed");
     ctx.assume("the key material observation is indirect (OAuth2 client configuration and a full entry dump, which includes the key objects)");
     ctx.finish();
